@@ -47,9 +47,45 @@ fn c16_shared(raw: &Raw) -> Scenario {
     b.finish()
 }
 
+/// A selector subscription made after `close()` while the held reducer still has a backlog to work
+/// off: the store keeps notifying until it is drained, and the subscription is entitled to that
+/// stream like the plain witness registered alongside.
+fn c16_after_close(raw: &Raw) -> Scenario {
+    let mut b = ScnB::new();
+    let s = b.store("c16", 8, Pol::Block, CTORS[pick(knob(raw, 1), 3)].clone());
+    let r0 = b.reducer(s);
+    let rg = b.gate();
+    b.comp_mut(r0).gate = Some(rg);
+    let witness = b.sub(SubKind::Direct);
+    let sel = b.sub(SubKind::Selector { fresh: false });
+    let primer = b.action(s, 0);
+    b.s.prelude.push(Op::Dispatch { act: primer, via: Via::Inherent });
+    b.s.prelude.push(Op::GateAwait { gate: rg, entered: 1 });
+    let ops = raw.threads.first().cloned().unwrap_or_default();
+    for r in ops.iter().take(6) {
+        let a = b.action(s, ((r.a >> 4) % 3) as u8);
+        if r.k % 16 == 15 {
+            b.act_mut(a).keep = vec![r0];
+        }
+        b.s.prelude.push(Op::Dispatch { act: a, via: via_of(r) });
+    }
+    b.s.prelude.push(Op::Close { store: s });
+    // the witness must come first (it is `prelude[0]`-like for the oracle: first Subscribe)
+    b.s.prelude.insert(0, Op::Subscribe { store: s, sub: witness });
+    b.s.prelude.push(Op::Subscribe { store: s, sub: sel });
+    let t = b.thread();
+    b.s.threads[t].push(Op::Stall(stall_of(knob(raw, 2))));
+    b.s.threads[t].push(Op::GateOpen { gate: rg });
+    b.s.epilogue.push(Op::Stop { store: s, via_trait: false });
+    b.finish()
+}
+
 pub fn c16_build(raw: &Raw, _tier: Tier, _sched: bool) -> Scenario {
     if knob(raw, 6) % 3 == 0 {
         return c16_shared(raw);
+    }
+    if knob(raw, 6) % 3 == 1 && (knob(raw, 6) >> 4) % 4 == 0 {
+        return c16_after_close(raw);
     }
     let mut b = ScnB::new();
     let s = b.store("c16", CAPS[pick(knob(raw, 0), CAPS.len())], Pol::Block, CTORS[pick(knob(raw, 1), 3)].clone());
@@ -95,6 +131,14 @@ pub fn c16_build(raw: &Raw, _tier: Tier, _sched: bool) -> Scenario {
                 b.s.threads[th].push(Op::Unsubscribe { store: s, sub: sels[pick(r.b, sels.len())] });
             }
         }
+    }
+    // a third of the cases: one more selector subscription is made by a client thread in the
+    // middle of the run (while the other thread may be dispatching)
+    if knob(raw, 12) % 3 == 0 && !b.s.threads.is_empty() {
+        let late = b.sub(SubKind::Selector { fresh: false });
+        let t = pick(knob(raw, 13), b.s.threads.len());
+        let at = pick(knob(raw, 14), b.s.threads[t].len() + 1);
+        b.s.threads[t].insert(at, Op::Subscribe { store: s, sub: late });
     }
     if unsubs && knob(raw, 8) % 2 == 0 && !acts.is_empty() {
         let trigger = acts[pick(knob(raw, 9), acts.len())];
@@ -178,24 +222,45 @@ pub fn c16_check(scn: &Scenario, h: &History) -> Outcome {
                 _ => {}
             }
         }
-        // whole-run subscriptions: the stream is what the witness (a plain subscriber registered
-        // just before, never unsubscribed) was told - a notification the selector subscription
-        // never got to see counts too
-        let whole_run = d.stores[s].subs.iter().any(|(x, iv)| x == sub && iv.unsub_inv.is_none() && iv.add_ret.map(|r| r < first_dispatch).unwrap_or(false));
-        if let (true, Some(w)) = (whole_run, witness) {
-            let wstream: Vec<(u64, ActId)> = h.recs.iter().filter_map(|r| match &r.ev {
-                Ev::NotIn { sub: x, act, st } if *x == w => Some((st.sel as u64, *act)),
+        // subscriptions that are never ended: the stream is what the witness (a plain subscriber
+        // registered first, never unsubscribed) was told from the moment this subscription existed -
+        // a notification the selector subscription never got to see counts too. A notification is
+        // *required* when the registration had returned before the action's last pre-notification
+        // callback returned (the subscriber list is read after that); the one round that may have
+        // been under way while the registration ran is accepted either way.
+        let my_iv = d.stores[s].subs.iter().find(|(x, _)| x == sub).map(|x| x.1.clone());
+        if let (Some(iv), Some(w)) = (my_iv.filter(|iv| iv.unsub_inv.is_none() && iv.add_ret.is_some()), witness) {
+            let (add_inv, add_ret) = (iv.add_inv.unwrap_or(0), iv.add_ret.unwrap());
+            let wentries: Vec<(u64, ActId, Pos)> = h.recs.iter().enumerate().filter_map(|(pos, r)| match &r.ev {
+                Ev::NotIn { sub: x, act, st } if *x == w => Some((st.sel as u64, *act, pos)),
                 _ => None,
             }).collect();
-            let wexpect = dedup_expected(&wstream);
-            if delivered != wexpect {
+            let pre_notify = |act: ActId, upto: Pos| -> Pos {
+                h.recs[..upto].iter().enumerate().rev().find_map(|(p, r)| match &r.ev {
+                    Ev::RedOut { act: a, .. } | Ev::MwOut { act: a, .. } if *a == act => Some(p),
+                    _ => None,
+                }).unwrap_or(0)
+            };
+            let first_req = wentries.iter().position(|(_, a, pos)| add_ret < pre_notify(*a, *pos)).unwrap_or(wentries.len());
+            let cand_a: Vec<(u64, ActId)> = wentries[first_req..].iter().map(|x| (x.0, x.1)).collect();
+            // the registration took effect at an unknown moment between its invocation and its
+            // return: the stream may start at any round that was notified in that interval
+            let first_possible = wentries.iter().position(|(_, _, pos)| *pos > add_inv).unwrap_or(wentries.len()).min(first_req);
+            let ok = (first_possible..=first_req).any(|i| {
+                let cand: Vec<(u64, ActId)> = wentries[i..].iter().map(|x| (x.0, x.1)).collect();
+                delivered == dedup_expected(&cand)
+            });
+            if !ok {
                 out.viol(format!(
-                    "selector subscription {}: the store's notification stream (value,action), as told to a plain subscriber registered alongside, is {:?}; callback received {:?}, expected consecutive-duplicate removal {:?}",
-                    sub, wstream, delivered, wexpect
+                    "selector subscription {} (registered at @{}..@{}): the store's notification stream (value,action), as told to a plain subscriber registered before it, is {:?} from the first notification this subscription was entitled to; callback received {:?}, expected consecutive-duplicate removal {:?}",
+                    sub, add_inv, add_ret, cand_a, delivered, dedup_expected(&cand_a)
                 ));
             }
             if scn.actions.iter().any(|a| a.verdicts.iter().any(|(_, hk, v)| *hk == Hook::BeforeReduce && *v == Verdict::Done)) {
                 out.class("vetoed-actions-in-the-stream");
+            }
+            if add_ret > first_dispatch {
+                out.class("subscribed-while-actions-were-queued");
             }
         }
         let expect = dedup_expected(&stream);
@@ -285,7 +350,7 @@ pub fn c16_extra(_tier: Tier) -> ExtraResult {
 
 pub static C16: Profile = Profile {
     id: "C16",
-    rule: "(1) enumeration: every sequence of selected values over {0,1,2} of length 0..=8 (9841 sequences) fed straight to SelectorSubscriber::on_notify; (2) proptest: sequences of up to 2x60 (quick) / 2x100 (thorough) actions over alphabets of 2-5 selected values through a running store with a plain witness subscriber, 1-2 selector subscriptions and 1-2 producers (Keep actions interspersed, in a third of the cases also actions vetoed in before_reduce, which are still notified; in a third of these a subscription is ended mid-run by a client thread or from inside the first subscription's own callback, so that a notification already in flight still reaches it); in a third of the cases one SelectorSubscriber object is registered on two stores fed concurrently (it must never deliver the value it delivered last). Oracle O-SELECT: delivered (value, action) list = consecutive-duplicate removal of the notification stream. Non-trivial = the stream contains an adjacent repeat AND a later return to an earlier value; distinct by scenario hash (random part) / by sequence (enumeration).",
+    rule: "(1) enumeration: every sequence of selected values over {0,1,2} of length 0..=8 (9841 sequences) fed straight to SelectorSubscriber::on_notify; (2) proptest: sequences of up to 2x60 (quick) / 2x100 (thorough) actions over alphabets of 2-5 selected values through a running store with a plain witness subscriber, 1-2 selector subscriptions and 1-2 producers (Keep actions interspersed, in a third of the cases also actions vetoed in before_reduce, which are still notified, in a third one more selector subscription made by a client thread mid-run; in a third of these a subscription is ended mid-run by a client thread or from inside the first subscription's own callback, so that a notification already in flight still reaches it); in a third of the cases one SelectorSubscriber object is registered on two stores fed concurrently (it must never deliver the value it delivered last). Oracle O-SELECT: delivered (value, action) list = consecutive-duplicate removal of the notification stream. Non-trivial = the stream contains an adjacent repeat AND a later return to an earlier value; distinct by scenario hash (random part) / by sequence (enumeration).",
     raw: c16_raw,
     build: c16_build,
     check: c16_check,
